@@ -73,6 +73,9 @@ func listFuncs(ps ...*pkgInfo) []string {
 		for k := range p.funcs {
 			out = append(out, p.name+":"+k)
 		}
+		for k := range pkgConsts(p) {
+			out = append(out, p.name+":const:"+k)
+		}
 	}
 	sort.Strings(out)
 	return out
@@ -743,4 +746,166 @@ func localAliases(fd *ast.FuncDecl) map[string]string {
 		}
 	}
 	return out
+}
+
+// package-level constants with their value expressions (iota groups are left alone)
+func pkgConsts(p *pkgInfo) map[string]ast.Expr {
+	out := map[string]ast.Expr{}
+	for _, f := range p.files {
+		for _, d := range f.Decls {
+			gd, ok := d.(*ast.GenDecl)
+			if !ok || gd.Tok != token.CONST {
+				continue
+			}
+			usesIota := false
+			ast.Inspect(gd, func(n ast.Node) bool {
+				if id, ok := n.(*ast.Ident); ok && id.Name == "iota" {
+					usesIota = true
+				}
+				return true
+			})
+			if usesIota {
+				continue
+			}
+			for _, sp := range gd.Specs {
+				vs, ok := sp.(*ast.ValueSpec)
+				if !ok || len(vs.Values) != len(vs.Names) {
+					continue
+				}
+				for i, n := range vs.Names {
+					out[n.Name] = vs.Values[i]
+				}
+			}
+		}
+	}
+	return out
+}
+
+// inlineNewConsts replaces, in every function body, the uses of package-level constants that
+// did not exist when the ties were written by their value expressions ("magic number → named
+// constant" is the most common tidy-up there is; the value is what the facts are about).
+func inlineNewConsts(p *pkgInfo, known map[string]bool) map[string]int {
+	if known == nil {
+		return nil
+	}
+	hasConstEntries := false
+	for k := range known {
+		if strings.Contains(k, ":const:") {
+			hasConstEntries = true
+		}
+	}
+	if !hasConstEntries {
+		return nil // an old list without constants: do nothing rather than inline everything
+	}
+	consts := pkgConsts(p)
+	fresh := map[string]ast.Expr{}
+	for n, v := range consts {
+		if !known[p.name+":const:"+n] && !ast.IsExported(n) {
+			fresh[n] = v
+		}
+	}
+	if len(fresh) == 0 {
+		return nil
+	}
+	// a new constant defined in terms of another new constant: expand a few times
+	expand := func(e ast.Expr) ast.Expr {
+		for round := 0; round < 3; round++ {
+			e = rewrite(cloneNode(e), func(n ast.Node) ast.Node {
+				if id, ok := n.(*ast.Ident); ok {
+					if v, ok := fresh[id.Name]; ok {
+						return &ast.ParenExpr{X: cloneNode(v).(ast.Expr)}
+					}
+				}
+				return n
+			}, nil).(ast.Expr)
+		}
+		return e
+	}
+	count := map[string]int{}
+	for _, fd := range p.funcs {
+		if fd.Body == nil {
+			continue
+		}
+		// locals that shadow a constant's name
+		shadow := map[string]bool{}
+		ast.Inspect(fd, func(n ast.Node) bool {
+			switch x := n.(type) {
+			case *ast.AssignStmt:
+				if x.Tok == token.DEFINE {
+					for _, l := range x.Lhs {
+						if id, ok := l.(*ast.Ident); ok {
+							shadow[id.Name] = true
+						}
+					}
+				}
+			case *ast.Field:
+				for _, id := range x.Names {
+					shadow[id.Name] = true
+				}
+			case *ast.ValueSpec:
+				for _, id := range x.Names {
+					shadow[id.Name] = true
+				}
+			}
+			return true
+		})
+		skip := map[*ast.Ident]bool{}
+		ast.Inspect(fd.Body, func(n ast.Node) bool {
+			switch x := n.(type) {
+			case *ast.SelectorExpr:
+				skip[x.Sel] = true
+			case *ast.KeyValueExpr:
+				if id, ok := x.Key.(*ast.Ident); ok {
+					skip[id] = true
+				}
+			}
+			return true
+		})
+		rewrite(fd.Body, func(n ast.Node) ast.Node {
+			if id, ok := n.(*ast.Ident); ok && !skip[id] && !shadow[id.Name] {
+				if v, ok := fresh[id.Name]; ok {
+					count[id.Name]++
+					e := expand(v)
+					switch e.(type) {
+					case *ast.BasicLit, *ast.Ident:
+						return e
+					}
+					return &ast.ParenExpr{X: e}
+				}
+			}
+			return n
+		}, nil)
+	}
+	// parentheses that no context needs (a whole argument, right-hand side, result or field value)
+	unp := func(e ast.Expr) ast.Expr {
+		if pe, ok := e.(*ast.ParenExpr); ok {
+			return pe.X
+		}
+		return e
+	}
+	for _, fd := range p.funcs {
+		if fd.Body == nil {
+			continue
+		}
+		ast.Inspect(fd.Body, func(n ast.Node) bool {
+			switch x := n.(type) {
+			case *ast.CallExpr:
+				for i := range x.Args {
+					x.Args[i] = unp(x.Args[i])
+				}
+			case *ast.AssignStmt:
+				for i := range x.Rhs {
+					x.Rhs[i] = unp(x.Rhs[i])
+				}
+			case *ast.ReturnStmt:
+				for i := range x.Results {
+					x.Results[i] = unp(x.Results[i])
+				}
+			case *ast.KeyValueExpr:
+				x.Value = unp(x.Value)
+			}
+			return true
+		})
+	}
+	return count
 }
